@@ -17,6 +17,7 @@ import (
 	"github.com/mithrandie/csvq/lib/parser"
 	"github.com/mithrandie/csvq/lib/value"
 
+	"github.com/mithrandie/go-text"
 	"github.com/mithrandie/go-text/color"
 	"github.com/mithrandie/go-text/fixedlen"
 )
@@ -153,12 +154,17 @@ func (tx *Transaction) Commit(ctx context.Context, scope *ReferenceScope, expr p
 				return NewSystemError(err.Error())
 			}
 
-			if _, err := EncodeView(ctx, fp, view, fileInfo.ExportOptions(tx), tx.Palette); err != nil {
+			exportOptions := fileInfo.ExportOptions(tx)
+			if _, err := EncodeView(ctx, fp, view, exportOptions, tx.Palette); err != nil {
 				return NewCommitError(expr, err.Error())
 			}
 
 			if !tx.Flags.ExportOptions.StripEndingLineBreak && !(fileInfo.Format == option.FIXED && fileInfo.SingleLine) {
-				if _, err := fp.Write([]byte(tx.Flags.ExportOptions.LineBreak.Value())); err != nil {
+				lb, err := endingLineBreak(exportOptions)
+				if err != nil {
+					return NewCommitError(expr, err.Error())
+				}
+				if _, err := fp.Write(lb); err != nil {
 					return NewCommitError(expr, err.Error())
 				}
 			}
@@ -179,12 +185,17 @@ func (tx *Transaction) Commit(ctx context.Context, scope *ReferenceScope, expr p
 				return NewSystemError(err.Error())
 			}
 
-			if _, err := EncodeView(ctx, fp, view, fileInfo.ExportOptions(tx), tx.Palette); err != nil {
+			exportOptions := fileInfo.ExportOptions(tx)
+			if _, err := EncodeView(ctx, fp, view, exportOptions, tx.Palette); err != nil {
 				return NewCommitError(expr, err.Error())
 			}
 
 			if !tx.Flags.ExportOptions.StripEndingLineBreak && !(fileInfo.Format == option.FIXED && fileInfo.SingleLine) {
-				if _, err := fp.Write([]byte(tx.Flags.ExportOptions.LineBreak.Value())); err != nil {
+				lb, err := endingLineBreak(exportOptions)
+				if err != nil {
+					return NewCommitError(expr, err.Error())
+				}
+				if _, err := fp.Write(lb); err != nil {
 					return NewCommitError(expr, err.Error())
 				}
 			}
@@ -218,6 +229,21 @@ func (tx *Transaction) Commit(ctx context.Context, scope *ReferenceScope, expr p
 		return NewCommitError(expr, err.Error())
 	}
 	return nil
+}
+
+// endingLineBreak returns the line break that terminates a table file, in the line break convention and the encoding of
+// that file. The byte order mark belongs to the head of the file only.
+func endingLineBreak(ops option.ExportOptions) ([]byte, error) {
+	enc := ops.Encoding
+	switch enc {
+	case text.UTF8M:
+		enc = text.UTF8
+	case text.UTF16BEM:
+		enc = text.UTF16BE
+	case text.UTF16LEM:
+		enc = text.UTF16LE
+	}
+	return text.Encode([]byte(ops.LineBreak.Value()), enc)
 }
 
 func (tx *Transaction) Rollback(scope *ReferenceScope, expr parser.Expression) error {
